@@ -241,6 +241,30 @@ pub fn continuation(sut: &mut Sut) -> Result<(), Fail> {
         ops.push(Op::Append(tag + 3, 2));
     }
     ops.push(Op::Reopen);
+    // Second variant (recovered writers of odd length): the first operation after the recovery
+    // does not grow the log (a clear), then a reopen, and then the recovered writer must still be
+    // a usable source: a fresh replica upgrades to its length and fetches a block from it.
+    let serve_variant = sut.model.writable && sut.model.length() % 2 == 1;
+    if serve_variant {
+        ops = vec![Op::Clear(0, 1), Op::Reopen];
+    }
+    let run = |sut: &mut Sut, ops: &[Op]| -> Result<(), Fail> {
+        for (i, op) in ops.iter().enumerate() {
+            sut.step(op).map_err(|f| fail(format!("continuation:{}:{}", op.kind(), f.sig), format!("continuation op #{i} {:?}: {}", op, f.detail)))?;
+            sut.check("continuation").map_err(|f| fail(format!("continuation:after-{}:{}", op.kind(), f.sig), format!("continuation after op #{i} {:?}: {}", op, f.detail)))?;
+        }
+        Ok(())
+    };
+    if serve_variant {
+        run(sut, &ops)?;
+        let len = sut.model.length();
+        let mut rep = crate::repl::Replica::create(&sut.key, sut.cache).map_err(|f| fail(format!("continuation:serve:{}", f.sig), f.detail))?;
+        let held = (0..len).find(|i| sut.model.get(*i).is_some());
+        let plan = crate::repl::Plan { upgrade: Some(len), block: held, ..Default::default() };
+        crate::repl::round_from(sut.core.as_mut().unwrap(), &sut.model, &mut rep, &plan)
+            .map_err(|f| fail(format!("continuation:serve:{}", f.sig), format!("a fresh replica could not replicate from the recovered writer (after clear + reopen): {}", f.detail)))?;
+        return run(sut, &[Op::Append(tag + 3, 2), Op::Reopen]);
+    }
     for (i, op) in ops.iter().enumerate() {
         sut.step(op).map_err(|f| fail(format!("continuation:{}:{}", op.kind(), f.sig), format!("continuation op #{i} {:?}: {}", op, f.detail)))?;
         sut.check("continuation").map_err(|f| fail(format!("continuation:after-{}:{}", op.kind(), f.sig), format!("continuation after op #{i} {:?}: {}", op, f.detail)))?;
